@@ -58,7 +58,7 @@ func genC07Node(g *simkit.Gen, depth int, shared bool) *C07Node {
 			if shared && g.Prob(0.5) {
 				c.Link = "same"
 			} else {
-				c.Link = simkit.Pick(g, []string{"fresh", "fresh", "grpc", "grpc-lower", "gin", "gin-lower", "dubbo", "dubbo-java", "dubbo-lower"})
+				c.Link = simkit.Pick(g, []string{"fresh", "fresh", "grpc", "grpc-lower", "gin", "gin-lower", "dubbo", "dubbo-golower", "dubbo-java", "dubbo-lower"})
 			}
 			n.Children = append(n.Children, c)
 		}
@@ -246,7 +246,7 @@ func (o *c07Obs) call(c context.Context, ch *C07Node) {
 			}
 		}
 		r.ServeHTTP(httptest.NewRecorder(), req)
-	case "dubbo", "dubbo-java", "dubbo-lower":
+	case "dubbo", "dubbo-golower", "dubbo-java", "dubbo-lower":
 		f := sdubbo.GetDubboTransactionFilter()
 		client := &dubboInvoker{f: func(ctx context.Context, inv protocol.Invocation) {
 			att := map[string]interface{}{}
@@ -254,6 +254,12 @@ func (o *c07Obs) call(c context.Context, ch *C07Node) {
 			case "dubbo":
 				if v, ok := inv.GetAttachment("SEATA_XID"); ok {
 					att["SEATA_XID"] = v
+				}
+			case "dubbo-golower":
+				// a transport that lower-cases attachment names (the filter accepts
+				// the dubbo-go key in both spellings)
+				if v, ok := inv.GetAttachment("SEATA_XID"); ok {
+					att["seata_xid"] = v
 				}
 			case "dubbo-java":
 				if v, ok := inv.GetAttachment("TX_XID"); ok {
